@@ -3,7 +3,7 @@
    write (s,t)=111; write (s,t)=222; crash. Record 111 is in partition 15, record 222 in partition 0, replay applies
    222 then 111: the older value is recovered. *)
 From Coq Require Import NArith ZArith List Bool Arith.
-From OG Require Import C01.Model.
+From OG Require Import C01.Proofs3 C01.Model.
 Import ListNotations.
 
 Definition w_ops : list wop :=
@@ -36,3 +36,11 @@ Theorem C01_current_partial_removal_reverts :
   recovered_current 2 (wrun ops) [1] (1, 3, 1)%N = Some 111%Z /\ lww (acked (wrun ops)) (1, 3, 1)%N = Some 222%Z.
 Proof. vm_compute. split; reflexivity. Qed.
 Print Assumptions C01_current_partial_removal_reverts.
+
+(* finding C01-asyncreplay: with one table for replayed records and new writes, a write acknowledged during the asynchronous
+   replay (value 2) is overwritten by the older logged value (1) when the replay reaches that record *)
+Theorem C01_async_replay_reverts_new_write :
+  let st := arun [] [[(ka, 1%Z)]] [AWrite [(ka, 2%Z)]; AReplayOne] in
+  a_log st = [] /\ a_read true st ka = Some 1%Z /\ a_read false st ka = Some 2%Z /\ lww ([] ++ a_done st ++ a_new st) ka = Some 2%Z.
+Proof. exact async_one_table_reverts. Qed.
+Print Assumptions C01_async_replay_reverts_new_write.
